@@ -79,6 +79,7 @@ class Model:
             if True:
                 if True:
                     pass
+                helpers.sink_final_return(self.modules[name], self.locals_table.get(name, {}))          # single exit written back as early returns
                 self.conditionals_merged += alpha.merge_conditional_assignments(self.modules[name])
                 helpers.split_merged_tail(self.modules[name], loop_ifelse.get(name, set()))        # a tail shared by both branches of an if/else in a loop
                 alpha.split_tuple_assigns(self.modules[name])                         # one binding per statement
